@@ -46,7 +46,8 @@ func DecodeMessage(payload *bytes.Buffer, packet *PacketNetFlowV5) error {
 	}
 
 	packet.Records = make([]RecordsNetFlowV5, int(packet.Count)) // maximum is 65535 which would be 3MB
-	for i := 0; i < int(packet.Count) && payload.Len() >= 48; i++ {
+	var i int
+	for i = 0; i < int(packet.Count) && payload.Len() >= 48; i++ {
 		record := RecordsNetFlowV5{}
 		var srcAddr, dstAddr, nextHop uint32
 
@@ -79,6 +80,8 @@ func DecodeMessage(payload *bytes.Buffer, packet *PacketNetFlowV5) error {
 		record.NextHop = IPAddress(nextHop)
 		packet.Records[i] = record
 	}
+	// keep only the records that were present in the payload
+	packet.Records = packet.Records[:i]
 
 	return nil
 }
